@@ -237,7 +237,7 @@ type pfGen struct {
 	epoch int
 }
 
-const pfEpoch = 3
+const pfEpoch = 4
 
 func (g *pfGen) pick(ss []string) string { return ss[g.rng.Intn(len(ss))] }
 func (g *pfGen) chance(pct int) bool     { return g.rng.Intn(100) < pct }
@@ -446,28 +446,88 @@ func (g *pfGen) args(ps []*pfProp, validOnly bool) *pfJ {
 	return o
 }
 
-// argsTok describes `params.arguments` the way the two functions unmarshal it: AB (unmarshal fails), AM (nil map), AO <object>.
-func pfArgsTok(params json.RawMessage) string {
-	var raw struct {
-		Arguments map[string]json.RawMessage `json:"arguments"`
+// pfParseOrdered parses JSON text keeping, for every object, the members in source order with repeated names and
+// names that differ only in case (number texts are kept; an array is re-rendered from its elements).
+func pfParseOrdered(data []byte) (*pfJ, error) {
+	dec := json.NewDecoder(bytes.NewReader(data))
+	dec.UseNumber()
+	j, err := pfOrderedValue(dec)
+	if err != nil {
+		return nil, err
 	}
-	if err := pfUnmarshal(params, &raw); err != nil {
-		return "AB"
+	if _, err := dec.Token(); err != io.EOF {
+		return nil, errors.New("trailing data")
 	}
-	if raw.Arguments == nil {
-		return "AM"
+	return j, nil
+}
+
+func pfOrderedValue(dec *json.Decoder) (*pfJ, error) {
+	t, err := dec.Token()
+	if err != nil {
+		return nil, err
 	}
-	var p struct {
-		Arguments json.RawMessage `json:"arguments"`
+	switch x := t.(type) {
+	case nil:
+		return &pfJ{kind: 'z'}, nil
+	case bool:
+		return &pfJ{kind: 'b', b: x}, nil
+	case json.Number:
+		return pfNum(x.String()), nil
+	case string:
+		return pfStr(x), nil
+	case json.Delim:
+		switch x {
+		case '{':
+			o := &pfJ{kind: 'o'}
+			for dec.More() {
+				kt, err := dec.Token()
+				if err != nil {
+					return nil, err
+				}
+				k, ok := kt.(string)
+				if !ok {
+					return nil, errors.New("member name is not a string")
+				}
+				v, err := pfOrderedValue(dec)
+				if err != nil {
+					return nil, err
+				}
+				o.fields = append(o.fields, pfField{k, v})
+			}
+			_, err := dec.Token()
+			return o, err
+		case '[':
+			var elems []string
+			for dec.More() {
+				v, err := pfOrderedValue(dec)
+				if err != nil {
+					return nil, err
+				}
+				elems = append(elems, v.json())
+			}
+			_, err := dec.Token()
+			return &pfJ{kind: 'a', raw: "[" + strings.Join(elems, ",") + "]"}, err
+		}
 	}
-	if err := json.Unmarshal(params, &p); err != nil {
-		return "AB"
+	return nil, errors.New("unexpected token")
+}
+
+// pfParamsTok renders `params` the way the JSON text has it, for the model to decode: P- absent, Pz null, Px another
+// non-object, "P o{ k<hex> <value> ... }" the members in source order (repeated and case-variant names kept).
+func pfParamsTok(params json.RawMessage) string {
+	if len(params) == 0 {
+		return "P-"
 	}
-	j, err := pfParseJ(p.Arguments)
-	if err != nil || j.kind != 'o' {
-		return "AB"
+	j, err := pfParseOrdered(params)
+	switch {
+	case err != nil:
+		return "Px"
+	case j.kind == 'z':
+		return "Pz"
+	case j.kind == 'o':
+		return "P " + j.tok()
 	}
-	return "AO " + j.tok()
+	return "Px"
 }
 
 func pfPrimTok(v any) string {
@@ -734,13 +794,59 @@ func pfHelperCase(g *pfGen, kind string) (op, obs string, tags []string) {
 			return strings.TrimSpace(v + " " + strings.Join(items, " "))
 		})
 		tags = []string{"annot-" + obs[:2], pfDepthTag(ps)}
+	case "params":
+		// extractName / extractRequestMeta on params as a foreign peer may send them (epoch 4 decoys: most cases)
+		c := &pfHTTPCase{toolName: "tool", schema: g.validSchema()}
+		method := g.pick([]string{"tools/call", "tools/call", "tools/call", "prompts/get", "resources/read", "resources/read", "ping", "tools/list", "initialize"})
+		meta := ""
+		if g.chance(60) {
+			meta = pfMeta(g.pick(append([]string{protocolVersion20260728, protocolVersion20260728, "2027-01-01"}, pfOldVersions...)), g.chance(70))
+		}
+		text, _ := g.message(c, method, 1, true, meta, g.chance(75))
+		var req struct {
+			Params json.RawMessage `json:"params"`
+		}
+		_ = json.Unmarshal([]byte(text), &req)
+		params := req.Params
+		dtags := c.decoy.tags
+		if len(dtags) == 0 && len(params) > 0 && params[0] == '{' && g.chance(75) {
+			p2, d := g.decorate(method, string(params), c.schema, c.toolName, []string{"name", "name", "name", "args", "argkey", "meta", "metakey", "metakey", "stray"})
+			params, dtags = json.RawMessage(p2), d.tags
+		}
+		op = "params M" + hxs(method) + " " + pfParamsTok(params)
+		obs = pfSafe(func() string {
+			name, nok := extractName(method, params)
+			mv := ""
+			if m := extractRequestMeta(params); m != nil {
+				mv, _ = m[MetaKeyProtocolVersion].(string)
+			}
+			return "n" + pfB01(nok) + " N" + hxs(name) + " V" + hxs(mv)
+		})
+		tags = append([]string{"params-" + strings.ReplaceAll(method, "/", "-"), "params-" + obs[:2]}, dtags...)
 	case "gen", "vph":
 		ps := g.validSchema()
 		tool := &Tool{Name: "t", InputSchema: json.RawMessage(pfSchemaJSON(ps))}
 		params := g.callParams("t", ps, false)
 		nb := len(extractParamHeaderAnnotations(tool))
+		// epoch 4: params of a foreign peer - case-variant / repeated members next to `arguments`, `name` and inside the
+		// arguments; the headers are then sometimes those a client would derive from the decoy instead of the real member
+		hdrSrc := params
+		var dtags []string
+		if g.epoch >= 4 && g.chance(35) {
+			p2, d := g.decorate("tools/call", string(params), ps, "t", []string{"args", "args", "argkey", "argkey", "name"})
+			if kind == "vph" && g.chance(15) {
+				p2, d = g.decorate("tools/call", string(params), ps, "t", []string{"argsdup"})
+			}
+			params = json.RawMessage(p2)
+			hdrSrc = params
+			dtags = d.tags
+			if d.params != "" && g.chance(50) {
+				hdrSrc = json.RawMessage(d.params)
+				dtags = append(dtags, "decoy-aligned")
+			}
+		}
 		if kind == "gen" {
-			op = "gen " + pfPropsTok(ps) + " " + pfArgsTok(params)
+			op = "gen " + pfPropsTok(ps) + " " + pfParamsTok(params)
 			obs = pfSafe(func() string {
 				h := http.Header{}
 				for k, v := range generateParamHeaders(tool, params) {
@@ -752,14 +858,14 @@ func pfHelperCase(g *pfGen, kind string) (op, obs string, tags []string) {
 				}
 				return pfParamHdrTok(hh)
 			})
-			tags = []string{"gen", fmt.Sprintf("gen-n%d", strings.Count(obs, "=")), pfDepthTag(ps)}
+			tags = append([]string{"gen", fmt.Sprintf("gen-n%d", strings.Count(obs, "=")), pfDepthTag(ps)}, dtags...)
 		} else {
 			h := http.Header{}
-			for k, v := range generateParamHeaders(tool, params) {
+			for k, v := range generateParamHeaders(tool, hdrSrc) {
 				h.Set(k, v)
 			}
 			g.mutateParamHeaders(h, tool, params)
-			op = "vph " + pfPropsTok(ps) + " " + pfArgsTok(params) + " " + pfParamHdrTok(h)
+			op = "vph " + pfPropsTok(ps) + " " + pfParamsTok(params) + " " + pfParamHdrTok(h)
 			obs = pfSafe(func() string {
 				err := validateParamHeaders(h, &jsonrpc.Request{Method: "tools/call", Params: params}, tool)
 				if err == nil {
@@ -770,7 +876,7 @@ func pfHelperCase(g *pfGen, kind string) (op, obs string, tags []string) {
 				}
 				return "err"
 			})
-			tags = []string{"vph-" + strings.ReplaceAll(obs, " ", "-"), pfDepthTag(ps)}
+			tags = append([]string{"vph-" + strings.ReplaceAll(obs, " ", "-"), pfDepthTag(ps)}, dtags...)
 		}
 	}
 	return
@@ -834,6 +940,383 @@ func (g *pfGen) callParams(name string, ps []*pfProp, validOnly bool, meta ...st
 	return json.RawMessage("{" + strings.Join(members, ",") + "}")
 }
 
+// ---------------------------------------------------------------------------------------------
+// Epoch 4: params as a foreign peer may send them - members whose names differ from a known member's only in case
+// ("Name", "URI", "Arguments", "_META", ...), repeated members, before and after the real one, at the top level of
+// params, inside `arguments` (at any depth) and inside `_meta`.
+
+type pfMember struct{ k, raw string }
+
+// pfSplitMembers splits the text of a JSON object into its members (source order, raw value texts).
+func pfSplitMembers(text string) ([]pfMember, bool) {
+	dec := json.NewDecoder(strings.NewReader(text))
+	if t, err := dec.Token(); err != nil || t != json.Delim('{') {
+		return nil, false
+	}
+	var out []pfMember
+	for dec.More() {
+		kt, err := dec.Token()
+		if err != nil {
+			return nil, false
+		}
+		k, ok := kt.(string)
+		if !ok {
+			return nil, false
+		}
+		var raw json.RawMessage
+		if dec.Decode(&raw) != nil {
+			return nil, false
+		}
+		out = append(out, pfMember{k, string(raw)})
+	}
+	return out, true
+}
+
+func pfJoinMembers(ms []pfMember) string {
+	parts := make([]string, len(ms))
+	for i, m := range ms {
+		k, _ := json.Marshal(m.k)
+		parts[i] = string(k) + ":" + m.raw
+	}
+	return "{" + strings.Join(parts, ",") + "}"
+}
+
+func pfInsertMember(ms []pfMember, at int, m pfMember) []pfMember {
+	out := make([]pfMember, 0, len(ms)+1)
+	out = append(out, ms[:at]...)
+	out = append(out, m)
+	return append(out, ms[at:]...)
+}
+
+// pfLastMember: index of the last member called exactly key (-1: none).
+func pfLastMember(ms []pfMember, key string) int {
+	idx := -1
+	for i, m := range ms {
+		if m.k == key {
+			idx = i
+		}
+	}
+	return idx
+}
+
+// pfStrictString is the harness's own reading of a string member: the last member called exactly key whose value is a
+// string (what a client that mirrors the body puts into Mcp-Name).
+func pfStrictString(ms []pfMember, key string) string {
+	out := ""
+	for _, m := range ms {
+		if m.k == key {
+			var s string
+			if len(m.raw) > 0 && m.raw[0] == '"' && json.Unmarshal([]byte(m.raw), &s) == nil {
+				out = s
+			}
+		}
+	}
+	return out
+}
+
+// caseVariant returns key with a random non-empty subset of its letters switched to the other case: every casing of
+// the name other than the name itself ("" if the key has no letter).
+func (g *pfGen) caseVariant(key string) string {
+	var letters []int
+	for i := 0; i < len(key); i++ {
+		if c := key[i] | 0x20; c >= 'a' && c <= 'z' {
+			letters = append(letters, i)
+		}
+	}
+	if len(letters) == 0 {
+		return ""
+	}
+	b := []byte(key)
+	switch g.rng.Intn(4) {
+	case 0: // first letter only ("Name", "Arguments")
+		b[letters[0]] ^= 0x20
+	case 1: // all letters ("NAME", "URI")
+		for _, i := range letters {
+			b[i] ^= 0x20
+		}
+	default: // a random non-empty subset
+		n := 0
+		for _, i := range letters {
+			if g.chance(50) {
+				b[i] ^= 0x20
+				n++
+			}
+		}
+		if n == 0 {
+			b[letters[g.rng.Intn(len(letters))]] ^= 0x20
+		}
+	}
+	return string(b)
+}
+
+// pfDecoy describes the member a decoration added.
+type pfDecoy struct {
+	kind   string   // name, args, argkey, meta, metakey, stray ("" = none)
+	str    string   // the decoy's string value (a name / uri / protocol version), if it is one
+	isStr  bool
+	params string   // args / argkey: the params text in which the decoy took the real member's place (to derive headers from)
+	tags   []string
+}
+
+// position draws where the decoy goes relative to the real member at index idx of a list of n: before or after it.
+func (g *pfGen) position(idx, n int) (at int, where string) {
+	if idx < 0 {
+		return g.rng.Intn(n + 1), "alone"
+	}
+	if g.chance(50) {
+		return g.rng.Intn(idx + 1), "before"
+	}
+	return idx + 1 + g.rng.Intn(n-idx), "after"
+}
+
+// otherValue: a value of the same JSON kind as v, but different.
+func (g *pfGen) otherValue(v *pfJ) *pfJ {
+	switch v.kind {
+	case 's':
+		return pfStr(v.s + g.pick([]string{"x", "-decoy", " ", "é"}))
+	case 'n':
+		if n, err := strconv.ParseInt(v.num, 10, 64); err == nil && n < 1<<52 && n > -(1<<52) {
+			return pfNum(strconv.FormatInt(n+1+int64(g.rng.Intn(3)), 10))
+		}
+		return pfNum("7")
+	case 'b':
+		return &pfJ{kind: 'b', b: !v.b}
+	case 'z':
+		return pfStr("decoy")
+	}
+	return g.pick2(pfStr("decoy"), pfNum("7"))
+}
+
+func (g *pfGen) pick2(a, b *pfJ) *pfJ {
+	if g.chance(50) {
+		return a
+	}
+	return b
+}
+
+// decoyInObject adds to some object of the tree under o (o itself, or a nested object member, at any depth) a member
+// whose name is a case variant of an existing member's name (sometimes the very name: a repeated member) and whose value
+// differs. It returns the tree in which the decoy's value took the original member's place (nil if nothing was added).
+func (g *pfGen) decoyInObject(o *pfJ) (swapped *pfJ, tags []string) {
+	if o.kind != 'o' || len(o.fields) == 0 {
+		return nil, nil
+	}
+	i := g.rng.Intn(len(o.fields))
+	f := o.fields[i]
+	if f.v.kind == 'o' && len(f.v.fields) > 0 && g.chance(60) {
+		sw, tags := g.decoyInObject(f.v)
+		if sw == nil {
+			return nil, nil
+		}
+		cp := &pfJ{kind: 'o', fields: append([]pfField(nil), o.fields...)}
+		cp.fields[i] = pfField{f.k, sw}
+		return cp, tags
+	}
+	key, tag := g.caseVariant(f.k), "decoy-argkey"
+	if key == "" || g.chance(10) {
+		key, tag = f.k, "decoy-argkey-exactdup"
+	}
+	val := g.otherValue(f.v)
+	at, where := g.position(i, len(o.fields))
+	// the tree a client mirroring the DECOY would have sent: the decoy's value under the original name
+	cp := &pfJ{kind: 'o', fields: append([]pfField(nil), o.fields...)}
+	cp.fields[i] = pfField{f.k, val}
+	if key == f.k && where == "before" {
+		cp = nil // a repeated member before the real one is overwritten: nothing to mirror
+	}
+	nf := make([]pfField, 0, len(o.fields)+1)
+	nf = append(nf, o.fields[:at]...)
+	nf = append(nf, pfField{key, val})
+	nf = append(nf, o.fields[at:]...)
+	o.fields = nf
+	if cp == nil {
+		cp = &pfJ{kind: 'o', fields: append([]pfField(nil), o.fields...)}
+	}
+	return cp, []string{tag, tag + "-" + where}
+}
+
+// decorate adds one decoy member to the params text (kinds: which decorations are eligible).
+func (g *pfGen) decorate(method, params string, schema []*pfProp, toolName string, kinds []string) (string, pfDecoy) {
+	ms, ok := pfSplitMembers(params)
+	if !ok {
+		return params, pfDecoy{}
+	}
+	idKey := ""
+	switch method {
+	case "tools/call", "TOOLS/CALL", "prompts/get":
+		idKey = "name"
+	case "resources/read":
+		idKey = "uri"
+	}
+	var elig []string
+	for _, k := range kinds {
+		switch k {
+		case "name":
+			if idKey != "" {
+				elig = append(elig, k)
+			}
+		case "args", "argkey", "argsdup":
+			if method == "tools/call" {
+				elig = append(elig, k)
+			}
+		case "metakey":
+			if i := pfLastMember(ms, "_meta"); i >= 0 && strings.HasPrefix(ms[i].raw, "{") {
+				elig = append(elig, k)
+			}
+		default:
+			elig = append(elig, k)
+		}
+	}
+	if len(elig) == 0 {
+		return params, pfDecoy{}
+	}
+	d := pfDecoy{kind: elig[g.rng.Intn(len(elig))]}
+	quote := func(s string) string { b, _ := json.Marshal(s); return string(b) }
+	switch d.kind {
+	case "name":
+		key, tag := g.caseVariant(idKey), "decoy-"+idKey
+		if g.chance(12) {
+			key, tag = idKey, "decoy-"+idKey+"-exactdup"
+		}
+		var raw string
+		if g.chance(80) {
+			if idKey == "uri" {
+				d.str = g.pick([]string{"file:///r", "file:///r", "file:///none", "file:///secret", ""})
+			} else {
+				d.str = g.pick([]string{"plain", "plain", toolName, toolName, "pr", "nosuch", "T", ""})
+			}
+			d.isStr = true
+			raw = quote(d.str)
+		} else {
+			raw = g.pick([]string{"5", "null", `{"x":1}`, `["a"]`, "true"})
+		}
+		at, where := g.position(pfLastMember(ms, idKey), len(ms))
+		ms = pfInsertMember(ms, at, pfMember{key, raw})
+		d.tags = []string{tag, tag + "-" + where}
+	case "args":
+		key := g.caseVariant("arguments")
+		var raw string
+		switch r := g.rng.Intn(100); {
+		case r < 70:
+			raw = g.args(schema, true).json()
+		case r < 80:
+			raw = "null"
+		case r < 90:
+			raw = `"str"`
+		default:
+			raw = "{}"
+		}
+		idx := pfLastMember(ms, "arguments")
+		// what a client mirroring the decoy would have sent
+		sw := append([]pfMember(nil), ms...)
+		if idx >= 0 {
+			sw[idx] = pfMember{"arguments", raw}
+		} else {
+			sw = append(sw, pfMember{"arguments", raw})
+		}
+		d.params = pfJoinMembers(sw)
+		at, where := g.position(idx, len(ms))
+		ms = pfInsertMember(ms, at, pfMember{key, raw})
+		d.tags = []string{"decoy-arguments", "decoy-arguments-" + where}
+	case "argsdup":
+		// a second member called exactly `arguments`: the dispatcher (a json.RawMessage field) keeps the last one
+		idx := pfLastMember(ms, "arguments")
+		if idx < 0 || !strings.HasPrefix(ms[idx].raw, "{") {
+			return params, pfDecoy{}
+		}
+		var raw string
+		switch r := g.rng.Intn(100); {
+		case r < 70:
+			raw = g.args(schema, true).json()
+		case r < 85:
+			raw = "{}"
+		case r < 93:
+			raw = "null"
+		default:
+			raw = `"str"`
+		}
+		at, where := g.position(idx, len(ms))
+		// what a peer aiming at a decoder that MERGES repeated members would mirror: all entries of both
+		if a, ok := pfSplitMembers(ms[idx].raw); ok {
+			if b, ok := pfSplitMembers(raw); ok {
+				merged := append(append([]pfMember(nil), a...), b...)
+				if where == "before" {
+					merged = append(append([]pfMember(nil), b...), a...)
+				}
+				sw := append([]pfMember(nil), ms...)
+				sw[idx] = pfMember{"arguments", pfJoinMembers(merged)}
+				d.params = pfJoinMembers(sw)
+			}
+		}
+		ms = pfInsertMember(ms, at, pfMember{"arguments", raw})
+		d.kind = "args"
+		d.tags = []string{"decoy-arguments-exactdup", "decoy-arguments-exactdup-" + where}
+	case "argkey":
+		idx := pfLastMember(ms, "arguments")
+		if idx < 0 {
+			return params, pfDecoy{}
+		}
+		o, err := pfParseOrdered([]byte(ms[idx].raw))
+		if err != nil || o.kind != 'o' {
+			return params, pfDecoy{}
+		}
+		sw, tags := g.decoyInObject(o)
+		if sw == nil {
+			return params, pfDecoy{}
+		}
+		swm := append([]pfMember(nil), ms...)
+		swm[idx] = pfMember{"arguments", sw.json()}
+		d.params = pfJoinMembers(swm)
+		ms[idx] = pfMember{"arguments", o.json()}
+		d.tags = tags
+	case "meta":
+		key, tag := g.caseVariant("_meta"), "decoy-meta"
+		if g.chance(12) {
+			key, tag = "_meta", "decoy-meta-exactdup"
+		}
+		var raw string
+		if g.chance(80) {
+			d.str = g.pick([]string{protocolVersion20260728, protocolVersion20260728, protocolVersion20251125, protocolVersion20250618, protocolVersion20250326, "2027-01-01"})
+			d.isStr = true
+			raw = pfMeta(d.str, g.chance(70))
+		} else {
+			raw = g.pick([]string{"null", "5", "{}", `"m"`})
+		}
+		at, where := g.position(pfLastMember(ms, "_meta"), len(ms))
+		ms = pfInsertMember(ms, at, pfMember{key, raw})
+		d.tags = []string{tag, tag + "-" + where}
+	case "metakey":
+		idx := pfLastMember(ms, "_meta")
+		mm, ok := pfSplitMembers(ms[idx].raw)
+		if !ok {
+			return params, pfDecoy{}
+		}
+		key, tag := g.caseVariant(pfMetaKeyV), "decoy-metakey"
+		if g.chance(12) {
+			key, tag = pfMetaKeyV, "decoy-metakey-exactdup"
+		}
+		var raw string
+		if g.chance(85) {
+			d.str = g.pick([]string{protocolVersion20260728, protocolVersion20251125, protocolVersion20250618, protocolVersion20250326, "2027-01-01"})
+			d.isStr = true
+			raw = quote(d.str)
+		} else {
+			raw = g.pick([]string{"5", "null", "{}"})
+		}
+		at, where := g.position(pfLastMember(mm, pfMetaKeyV), len(mm))
+		mm = pfInsertMember(mm, at, pfMember{key, raw})
+		ms[idx] = pfMember{"_meta", pfJoinMembers(mm)}
+		d.tags = []string{tag, tag + "-" + where}
+	default: // stray: a member that means something for another method only
+		key := g.caseVariant(g.pick([]string{"name", "uri", "arguments"}))
+		at, _ := g.position(-1, len(ms))
+		ms = pfInsertMember(ms, at, pfMember{key, g.pick([]string{`"tool"`, `"plain"`, `{"a":1}`, "5", "null"})})
+		d.tags = []string{"decoy-stray"}
+	}
+	d.tags = append(d.tags, "decoy")
+	return pfJoinMembers(ms), d
+}
+
 // mutateParamHeaders perturbs client-correct Mcp-Param-* headers: each binding independently
 // kept / dropped / mismatching / re-encoded / broken / emptied; sometimes a header for an absent argument is added.
 func (g *pfGen) mutateParamHeaders(h http.Header, tool *Tool, params json.RawMessage) {
@@ -892,6 +1375,30 @@ func (a pfAddr) String() string  { return string(a) }
 
 type pfCounters struct {
 	mw, h atomic.Int64
+	mu    sync.Mutex
+	names []string // what the tool / prompt / resource handlers were run for (Params.Name / Params.URI as decoded by the dispatcher)
+}
+
+func (c *pfCounters) saw(name string) {
+	c.h.Add(1)
+	c.mu.Lock()
+	c.names = append(c.names, name)
+	c.mu.Unlock()
+}
+
+// seen: "X=" field of the observation: the names the handlers saw, sorted, hex, comma-separated ("-": none).
+func (c *pfCounters) seen() string {
+	c.mu.Lock()
+	defer c.mu.Unlock()
+	if len(c.names) == 0 {
+		return "-"
+	}
+	hs := make([]string, len(c.names))
+	for i, n := range c.names {
+		hs[i] = hxs(n)
+	}
+	sort.Strings(hs)
+	return strings.Join(hs, ",")
 }
 
 func pfServer(cnt *pfCounters, toolName string, schema []*pfProp, noSID bool) *Server {
@@ -909,20 +1416,20 @@ func pfServer(cnt *pfCounters, toolName string, schema []*pfProp, noSID bool) *S
 	})
 	if toolName != "" {
 		s.AddTool(&Tool{Name: toolName, InputSchema: json.RawMessage(pfSchemaJSON(schema))}, func(ctx context.Context, req *CallToolRequest) (*CallToolResult, error) {
-			cnt.h.Add(1)
+			cnt.saw(req.Params.Name)
 			return &CallToolResult{}, nil
 		})
 	}
 	s.AddTool(&Tool{Name: "plain", InputSchema: json.RawMessage(`{"type":"object"}`)}, func(ctx context.Context, req *CallToolRequest) (*CallToolResult, error) {
-		cnt.h.Add(1)
+		cnt.saw(req.Params.Name)
 		return &CallToolResult{}, nil
 	})
 	s.AddPrompt(&Prompt{Name: "pr"}, func(ctx context.Context, req *GetPromptRequest) (*GetPromptResult, error) {
-		cnt.h.Add(1)
+		cnt.saw(req.Params.Name)
 		return &GetPromptResult{}, nil
 	})
 	s.AddResource(&Resource{URI: "file:///r", Name: "r"}, func(ctx context.Context, req *ReadResourceRequest) (*ReadResourceResult, error) {
-		cnt.h.Add(1)
+		cnt.saw(req.Params.URI)
 		return &ReadResourceResult{Contents: []*ResourceContents{{URI: "file:///r", Text: "x"}}}, nil
 	})
 	return s
@@ -1015,6 +1522,8 @@ type pfHTTPCase struct {
 	noSID     bool // the server's GetSessionID returns "" (stateful handler: ephemeral sessions)
 	famTags   []string // array-body family: element count, header-version class, _meta-version classes
 	wire      bool // send the request over a real loopback socket through net/http's server instead of calling ServeHTTP
+	decoy     pfDecoy  // epoch 4: the decoy member the last generated message carries (kind "" = none)
+	decoyTags []string // the decoys of the base message
 }
 
 var pfOldVersions = []string{protocolVersion20251125, protocolVersion20250618, protocolVersion20250326, protocolVersion20241105}
@@ -1077,6 +1586,32 @@ func (g *pfGen) message(c *pfHTTPCase, method string, id int, withID bool, meta 
 			params = `{"_meta":` + meta + `}`
 		} else if g.chance(50) {
 			params = `{}`
+		}
+	}
+	c.decoy = pfDecoy{}
+	if g.epoch >= 4 && strings.HasPrefix(params, "{") && g.chance(24) {
+		kinds := []string{"name", "name", "name", "name", "args", "argkey", "argsdup", "meta", "metakey", "metakey"}
+		if method != "tools/call" && method != "TOOLS/CALL" && method != "prompts/get" && method != "resources/read" {
+			kinds = []string{"meta", "metakey", "metakey", "stray"}
+		}
+		params, c.decoy = g.decorate(method, params, c.schema, c.toolName, kinds)
+		if g.chance(25) {
+			// a second, independent decoy
+			var d2 pfDecoy
+			params, d2 = g.decorate(method, params, c.schema, c.toolName, kinds)
+			c.decoy.tags = append(c.decoy.tags, d2.tags...)
+			if c.decoy.kind == "" {
+				c.decoy = d2
+			}
+		}
+		// the name a client mirroring the body announces: the last member called exactly name / uri
+		if ms, ok := pfSplitMembers(params); ok {
+			switch method {
+			case "tools/call", "TOOLS/CALL", "prompts/get":
+				name = pfStrictString(ms, "name")
+			case "resources/read":
+				name = pfStrictString(ms, "uri")
+			}
 		}
 	}
 	var sb strings.Builder
@@ -1256,6 +1791,38 @@ func (g *pfGen) httpCase() *pfHTTPCase {
 					c.paramHdr.Set(k, v)
 				}
 				g.mutateParamHeaders(c.paramHdr, tool, req.Params)
+			}
+		}
+	}
+	// epoch 4: StreamableHTTPOptions.JSONResponse is a dimension of the configuration, not only a perturbation
+	if g.epoch >= 4 && c.kind != "sse" && g.chance(18) {
+		c.jsonResp = true
+		c.decoyTags = append(c.decoyTags, "cfg-json-response")
+	}
+	// epoch 4: the base message carries a decoy member: the headers sometimes mirror the DECOY (what a peer would send
+	// to make an intermediary route on one value and the server act on another)
+	if d := c.decoy; d.kind != "" {
+		c.decoyTags = append(c.decoyTags, d.tags...)
+		if g.chance(55) {
+			aligned := false
+			switch {
+			case d.kind == "name" && d.isStr && newProto:
+				v := d.str
+				c.mcpName = &v
+				aligned = true
+			case (d.kind == "args" || d.kind == "argkey") && d.params != "" && newProto && method == "tools/call" && name == c.toolName:
+				tool := &Tool{Name: c.toolName, InputSchema: json.RawMessage(pfSchemaJSON(c.schema))}
+				c.paramHdr = http.Header{}
+				for k, v := range generateParamHeaders(tool, json.RawMessage(d.params)) {
+					c.paramHdr.Set(k, v)
+				}
+				aligned = true
+			case (d.kind == "meta" || d.kind == "metakey") && d.isStr:
+				c.version = d.str
+				aligned = true
+			}
+			if aligned {
+				c.decoyTags = append(c.decoyTags, "decoy-aligned", "decoy-aligned-"+d.kind)
 			}
 		}
 	}
@@ -1573,16 +2140,38 @@ func pfDescribeMsg(msg jsonrpc.Message, infos map[string]methodInfo, srv *Server
 		mv, _ = meta[MetaKeyProtocolVersion].(string)
 	}
 	name, nok := extractName(req.Method, req.Params)
-	parts := []string{"m{", "r1", "c" + pfB01(req.IsCall()), "q" + chk, "M" + hxs(req.Method), "V" + hxs(mv), "n" + pfB01(nok), "N" + hxs(name)}
-	parts = append(parts, pfArgsTok(req.Params))
-	tool := "T-"
+	// V / n / N: what the implementation's own extractors return (the model decodes the member list itself and the
+	// monitor compares); T{ }: the server's tool table as far as this request can name it (real lookups); P: params
+	parts := []string{"m{", "r1", "c" + pfB01(req.IsCall()), "q" + chk, "M" + hxs(req.Method), "V" + hxs(mv), "n" + pfB01(nok), "N" + hxs(name), "T{"}
 	if req.Method == "tools/call" && srv != nil {
-		if st, ok := srv.getServerTool(name); ok && st != nil {
-			tool = "T " + pfToolPropsTok(st.tool)
+		for _, cand := range pfToolCandidates(req.Params, name) {
+			if st, ok := srv.getServerTool(cand); ok && st != nil {
+				parts = append(parts, "t"+hxs(cand), pfToolPropsTok(st.tool))
+			}
 		}
 	}
-	parts = append(parts, tool, "}")
+	parts = append(parts, "}", pfParamsTok(req.Params), "}")
 	return strings.Join(parts, " ")
+}
+
+// pfToolCandidates: every name the request could possibly mean - the two registered names, what extractName returned,
+// and the string value of every top-level member whose name is `name` in any casing.
+func pfToolCandidates(params json.RawMessage, extracted string) []string {
+	set := map[string]bool{"tool": true, "plain": true, extracted: true}
+	if ms, ok := pfSplitMembers(string(params)); ok {
+		for _, m := range ms {
+			var s string
+			if strings.EqualFold(m.k, "name") && json.Unmarshal([]byte(m.raw), &s) == nil {
+				set[s] = true
+			}
+		}
+	}
+	var out []string
+	for k := range set {
+		out = append(out, k)
+	}
+	sort.Strings(out)
+	return out
 }
 
 // pfToolPropsTok re-derives the property tree of a registered tool from its InputSchema JSON
@@ -1985,7 +2574,7 @@ func (c *pfHTTPCase) run() (op, obs string, tags []string) {
 		if c.method == "POST" && (rec.Header().Get("Cache-Control") == "no-cache, no-transform" || rec.Code == http.StatusAccepted) {
 			d = 1
 		}
-		obs = fmt.Sprintf("S=%d E=%s A=%s R=%d H=%d D=%d", rec.Code, code, allow, cnt.mw.Load()-mw0, cnt.h.Load()-h0, d)
+		obs = fmt.Sprintf("S=%d E=%s A=%s R=%d H=%d D=%d X=%s", rec.Code, code, allow, cnt.mw.Load()-mw0, cnt.h.Load()-h0, d, cnt.seen())
 	}
 	tags = []string{"http-" + c.kind, fmt.Sprintf("http-%s-%d", c.kind, rec.Code), c.sizeClass, "body-" + strings.Fields(bodyTok)[0][1:], fmt.Sprintf("ph%d", strings.Count(paramTok, "=")), "bd-" + c.bodyMode, pfDepthTag(c.schema)}
 	if c.noSID {
@@ -1995,11 +2584,12 @@ func (c *pfHTTPCase) run() (op, obs string, tags []string) {
 		tags = append(tags, "wire")
 	}
 	tags = append(tags, c.famTags...)
+	tags = append(tags, c.decoyTags...)
 	tags = append(tags, c.muts...)
 	if len(c.muts) == 0 {
 		tags = append(tags, "mut-none")
 	}
-	if strings.HasSuffix(obs, "D=1") {
+	if strings.Contains(obs, " D=1 ") {
 		tags = append(tags, "dispatched")
 		if rec.Code >= 300 {
 			tags = append(tags, "late-error")
@@ -2055,13 +2645,20 @@ func (e *pfE2E) close() {
 	e.hs.Close()
 }
 
-func (e *pfE2E) call(args *pfJ) (op, obs string, tags []string) {
+// call: one tools/call through the real client. meta: extra `_meta` entries the caller's application attaches (epoch 4:
+// entries whose keys differ from the protocol's own keys only in case; the client adds its own entries next to them).
+func (e *pfE2E) call(args *pfJ, meta map[string]any) (op, obs string, tags []string) {
 	argsJSON := args.json()
-	params := json.RawMessage(`{"name":"tool","arguments":` + argsJSON + `}`)
+	metaJSON := ""
+	if len(meta) > 0 {
+		b, _ := json.Marshal(meta)
+		metaJSON = `"_meta":` + string(b) + `,`
+	}
+	params := json.RawMessage(`{` + metaJSON + `"name":"tool","arguments":` + argsJSON + `}`)
 	// opaque: whether the SDK can decode these params at all (extractName unmarshals the whole params, so e.g. a
 	// number outside the float64 range anywhere in the arguments makes it fail on both sides)
 	_, nok := extractName("tools/call", params)
-	op = "e2e n" + pfB01(nok) + " " + pfPropsTok(e.schema) + " " + pfArgsTok(params)
+	op = "e2e n" + pfB01(nok) + " " + pfPropsTok(e.schema) + " " + pfParamsTok(params)
 	e.mu.Lock()
 	e.seen = nil
 	e.mu.Unlock()
@@ -2070,7 +2667,7 @@ func (e *pfE2E) call(args *pfJ) (op, obs string, tags []string) {
 	var err error
 	var seen []string
 	for attempt := 0; attempt < 3; attempt++ {
-		_, err = e.cs.CallTool(ctx, &CallToolParams{Name: "tool", Arguments: json.RawMessage(argsJSON)})
+		_, err = e.cs.CallTool(ctx, &CallToolParams{Meta: Meta(meta), Name: "tool", Arguments: json.RawMessage(argsJSON)})
 		e.mu.Lock()
 		seen = e.seen
 		e.mu.Unlock()
@@ -2125,7 +2722,7 @@ func pfCanon(j *pfJ) string {
 
 // ---------------------------------------------------------------------------------------------
 
-var pfKinds = []string{"accepts", "codec", "decode", "unprim", "peq", "annot", "gen", "vph", "http", "e2e"}
+var pfKinds = []string{"accepts", "codec", "decode", "unprim", "peq", "annot", "gen", "vph", "http", "e2e", "params"}
 
 func pfRngFor(seed int64, kind string, idx int) *rand.Rand {
 	k := 0
@@ -2161,7 +2758,25 @@ func pfRunCase(t *testing.T, out *verifOut, kind string, seed int64, idx int, ep
 		defer e.close()
 		n := 6
 		for i := 0; i < n; i++ {
-			op, obs, tags = e.call(g.args(schema, g.chance(85)))
+			args := g.args(schema, g.chance(85))
+			var meta map[string]any
+			var dtags []string
+			if g.epoch >= 4 && g.chance(35) {
+				// an application whose argument object / _meta carry members differing from a bound parameter's name (or
+				// from the protocol's _meta keys) only in case: the mirror and the version agreement must not see them
+				if g.chance(60) {
+					_, dtags = g.decoyInObject(args)
+				}
+				if dtags == nil || g.chance(40) {
+					meta = map[string]any{g.caseVariant(pfMetaKeyV): g.pick([]string{protocolVersion20250618, protocolVersion20251125, "2027-01-01", protocolVersion20260728})}
+					if g.chance(40) {
+						meta[g.caseVariant(MetaKeyClientCapabilities)] = g.pick([]string{"x", ""})
+					}
+					dtags = append(dtags, "decoy-metakey", "decoy")
+				}
+			}
+			op, obs, tags = e.call(args, meta)
+			tags = append(tags, dtags...)
 			if extraTag != "" {
 				tags = append(tags, extraTag)
 			}
@@ -2224,12 +2839,12 @@ func TestVerifPreflight(t *testing.T) {
 	counts := map[string]int{
 		"accepts": scale(2500, 40000), "codec": scale(2500, 40000), "decode": scale(1500, 20000), "unprim": scale(2500, 30000),
 		"peq": scale(4000, 60000), "annot": scale(2500, 30000), "gen": scale(2500, 40000), "vph": scale(4000, 80000),
-		"http": scale(8000, 120000), "e2e": scale(250, 4000),
+		"http": scale(8000, 120000), "e2e": scale(250, 4000), "params": scale(3000, 40000),
 	}
 	if over {
 		// VERIF_CASES scales the whole-request stream; helpers follow proportionally
 		n := verifN(0, 0)
-		counts = map[string]int{"accepts": n / 4, "codec": n / 4, "decode": n / 8, "unprim": n / 4, "peq": n / 2, "annot": n / 4, "gen": n / 4, "vph": n / 2, "http": n, "e2e": n / 40}
+		counts = map[string]int{"accepts": n / 4, "codec": n / 4, "decode": n / 8, "unprim": n / 4, "peq": n / 2, "annot": n / 4, "gen": n / 4, "vph": n / 2, "http": n, "e2e": n / 40, "params": n / 4}
 	}
 	for _, kind := range pfKinds {
 		n := counts[kind]
